@@ -289,7 +289,8 @@ class BeaconCapture:
 
         if response.request:
             is_stager = False
-            uri = response.request.uri.decode("ascii", errors="ignore")
+            # latin-1 maps every byte to one character, dropping bytes could turn a non-stager URI into a stager URI
+            uri = response.request.uri.decode("latin-1")
             if utils.is_stager_x86(uri):
                 is_stager = True
                 logging.info("Found valid x86 checksum8 request: %r", response.request)
